@@ -806,6 +806,15 @@ def suite_corrupt(tier):
                     units, single = r.choice([([uid], False), ([uid], False), ([3], True), ([0], False)])
                     cases.append(corrupt_case(kind, direction, units, single, chunks, label,
                                               {"frame": frame.hex(), "context": ctx, "class": cname}))
+                # the INTACT twin of the frame first, on the same receiver (one request polled over and over): having
+                # just accepted these very header / check bytes must not open the gate for a copy whose body was hit
+                if len(frame) <= 40:
+                    r2 = common.rng("a_corrupt.twin.%s.%s.%s" % (kind, direction, cname))
+                    hits = [(l, b) for l, b in corruptions(r2, frame, "quick", kind) if l in ("flip1", "subst")]
+                    for label, bad in r2.sample(hits, min(len(hits), 24 if tier == "quick" else 200)):
+                        chunks = r2.choice([[frame, bad], [frame + bad], [frame, frame, bad + after]])
+                        cases.append(corrupt_case(kind, direction, [uid], False, chunks, "twin-" + label,
+                                                  {"frame": frame.hex(), "context": "twin", "class": cname}))
     return Suite("a_corrupt", IMPORTS, "chk_c07", cases, shard=120)
 
 
